@@ -108,11 +108,11 @@ func (t *vfTW) aclRequest(o vfAclOp) (string, *vfClient) {
 	case "deltopic":
 		return fmt.Sprintf(`{"del":{"id":"$ID","topic":"%s","what":"topic","hard":%v}}`, t.grp, o.Hard), c
 	case "setpub":
-		return fmt.Sprintf(`{"set":{"id":"$ID","topic":"%s","desc":{"public":{"fn":"by-u%d"}}}}`, t.grp, o.Actor), c
+		return fmt.Sprintf(`{"set":{"id":"$ID","topic":"%s","desc":{"public":{"fn":"by-u%d","org":{"n":"by-u%d"}}}}}`, t.grp, o.Actor, o.Actor), c
 	case "setdefacs":
 		return fmt.Sprintf(`{"set":{"id":"$ID","topic":"%s","desc":{"defacs":{"auth":"JRWP","anon":"JR"}}}}`, t.grp), c
 	case "setpriv":
-		return fmt.Sprintf(`{"set":{"id":"$ID","topic":"%s","desc":{"private":{"note":"of-u%d"}}}}`, t.grp, o.Actor), c
+		return fmt.Sprintf(`{"set":{"id":"$ID","topic":"%s","desc":{"private":{"note":"of-u%d","n":{"k":"of-u%d"}}}}}`, t.grp, o.Actor, o.Actor), c
 	case "settags":
 		return fmt.Sprintf(`{"set":{"id":"$ID","topic":"%s","tags":["by%dxx","tagone"]}}`, t.grp, o.Actor), c
 	}
